@@ -24,6 +24,19 @@
     `it = iter(x)` / `it = None`                               `let it := some x` / `let it := none`
     `try: x = next(it) except StopIteration: return`           `nextOr it ([], none) fun x it => …`
     `if it is None: A else: B`                                 `match it with | none => A | some it => B`
+    `if x is None or C: A else: B` (x an optional number)      `match x with | none => A | some x => if C then A else B`
+    `yield E` at function level                                `[E]`                       (a list segment)
+    `for v in g(..): yield f(v)` (g a generator function)      `mapOut f (g .. n)`
+    `return Stream(E for v in r)` (r the run of a generator)   `mapRunG (fun v => E) r`  with E in Python's order of
+                                                               evaluation: `bindE (raising primitive) fun t => … .ok PURE`
+    `tbl[j]` (a list, j an int; IndexError)                    `indexG tbl j`
+    `int(ceil(E))`                                             `o.ceil E`
+    `float(k)` (k an int)                                      `o.ofInt k`
+    `x * a` (x a number, a a number or a Stream)               `Arg.map (fun v => o.mul x v) a`
+    `len(self)`, `self.table`, `self.cycles * 2 * pi`          `table.length`, `table`, the parameter `den`
+    `int(floor(E))`                                            `floor E`  (a parameter: `NumOps` has no floor)
+    `j % k` (ints; ZeroDivisionError)                          `intModG j k`
+    `return E` of a function that returns one value            `bindE (raising primitive) fun t => … .ok PURE`
 
   The state of a loop is the tuple of the variables its body assigns, in order of first assignment.
   Mathlib-free; executable.
@@ -78,6 +91,28 @@ def rangeG {α : Type} (k : Int) (n : Nat) (f : Nat → α) : List α := (List.r
 
 /-- the function ends after these samples; `n` reads -/
 def takeRun {α : Type} (n : Nat) (xs : List α) : Run α := (xs.take n, none)
+
+/-- `for v in g(..): yield f v`: the outputs of the generator through `f`; its exception, if any, after them -/
+def mapOut {α β : Type} (f : α → β) (r : Run α) : Run β := (r.1.map f, r.2)
+
+/-- a raising primitive inside an expression; the rest of the expression is evaluated after it -/
+def bindE {β γ : Type} (x : Except String β) (k : β → Except String γ) : Except String γ :=
+  match x with
+  | .error e => .error e
+  | .ok v => k v
+
+/-- `tbl[j]` -/
+def indexG {α : Type} (tbl : List α) (j : Int) : Except String α :=
+  match pyIndex tbl j with
+  | some x => .ok x
+  | none => .error "IndexError"
+
+/-- `j % k` of two ints: floored; `k = 0` raises -/
+def intModG (j k : Int) : Except String Int :=
+  if k = 0 then .error "ZeroDivisionError" else .ok (j.fmod k)
+
+/-- `Stream(E for v in r)`: lazily, the first failing sample ends the stream -/
+def mapRunG {α β : Type} (f : α → Except String β) (r : Run α) : Run β := mapRun f r.1 r.2
 
 /-- `try: x = next(it) except StopIteration: return` -/
 def nextOr {α β : Type} (it : Option (List α)) (stop : β) (k : α → Option (List α) → β) : β :=
@@ -143,6 +178,54 @@ def mcNow (start modulo step : Arg α) (n : Nat) : Run α :=
           | .ok c => (List.replicate n c, none)
         else if stepsNow o m s > 1 then gFastN o m s (stepsNow o m s) n a 0
         else gN o m s n a
+
+/-- `sinusoid(freq, phase)` as it is written today: `sin` of `modulo_counter(phase, 2 * pi, freq)`; the sine and the
+    value of `2 * pi` are parameters -/
+def sinusoidNow {β : Type} (sin : α → β) (twoPi : α) (freq phase : Arg α) (n : Nat) : Run β :=
+  mapOut sin (mcNow o phase (.num twoPi) freq n)
+
+/-- one sample of `TableLookup.__call__` in Python's order of evaluation: `int(idx)`, the left neighbour, `ceil`, the
+    right neighbour (`lookupAtG` asks for both integers first) -/
+def lookupAtNow (tbl : List α) (idx : α) : Except String α :=
+  match o.trunc idx with
+  | .error x => .error x
+  | .ok i =>
+    match pyIndex tbl i with
+    | none => .error "IndexError"
+    | some x =>
+      match o.ceil idx with
+      | .error e => .error e
+      | .ok c =>
+        match pyIndex tbl (c - (tbl.length : Int)) with
+        | none => .error "IndexError"
+        | some y => .ok (o.add (o.mul x (o.sub o.one (o.sub idx (o.ofInt i)))) (o.mul y (o.sub idx (o.ofInt i))))
+
+/-- `TableLookup.__getitem__(idx)` as it is written today (D15 repaired: `left = int(floor(idx))`, both neighbours
+    `% len`), in Python's order of evaluation; `floor` = `int(math.floor(·))` -/
+def getItemNow (floor : α → Except String Int) (tbl : List α) (idx : α) : Except String α :=
+  let L : Int := tbl.length
+  match floor idx with
+  | .error e => .error e
+  | .ok left =>
+    if L = 0 then .error "ZeroDivisionError"
+    else match pyIndex tbl (left.fmod L) with
+      | none => .error "IndexError"
+      | some x =>
+        match o.ceil idx with
+        | .error e => .error e
+        | .ok c =>
+          match pyIndex tbl (c.fmod L) with
+          | none => .error "IndexError"
+          | some y =>
+            .ok (o.add (o.mul x (o.sub o.one (o.sub idx (o.ofInt left)))) (o.mul y (o.sub idx (o.ofInt left))))
+
+/-- `TableLookup(tbl, cycles)(freq, phase)` as it is written today (`den` = the value of `cycles * 2 * pi`): the
+    positions come from today's `modulo_counter` -/
+def tableCallNow (tbl : List α) (den : α) (freq phase : Arg α) (n : Nat) : Run α :=
+  let total : α := o.ofInt (tbl.length : Int)
+  let cycleLength := o.div total den
+  let r := mcNow o (phase.map (o.mul cycleLength ·)) (.num total) (freq.map (o.mul cycleLength ·)) n
+  mapRun (lookupAtNow o tbl) r.1 r.2
 
 /-- `attack` as it is written today: `attackG`, but an empty sustain iterable gives the empty
     envelope (D23 repaired: `except StopIteration: return`) -/
